@@ -20,6 +20,12 @@ func SimpleFrames(n int, audio bool) []Frame { return SimpleFramesStep(n, audio,
 // unit (90 kHz ticks), e.g. 45000 for half-second frames that fill HLS segments
 // quickly.
 func SimpleFramesStep(n int, audio bool, step uint32) []Frame {
+	return SimpleFramesSized(n, audio, step, 0)
+}
+
+// SimpleFramesSized is SimpleFramesStep with every slice and AAC body lengthened
+// by extra bytes (so that a handful of frames weighs several KiB).
+func SimpleFramesSized(n int, audio bool, step uint32, extra int) []Frame {
 	var out []Frame
 	seq, aseq := uint16(65530), uint16(100) // the video sequence number wraps early
 	ts, ats := uint32(900000), uint32(44100)
@@ -42,12 +48,12 @@ func SimpleFramesStep(n int, audio bool, step uint32) []Frame {
 		key := au%3 == 0
 		if key {
 			addVideo([][]byte{rtppack.H264Single(esgen.RealH264SPS), rtppack.H264Single(esgen.RealH264PPS)}, false)
-			addVideo(rtppack.H264FuA(body(0x65, 40+au, au), 24), true)
+			addVideo(rtppack.H264FuA(body(0x65, 40+au+extra, au), 24+extra/2), true)
 		} else {
-			addVideo([][]byte{rtppack.H264Single(body(0x41, 20+au%50, au))}, true)
+			addVideo([][]byte{rtppack.H264Single(body(0x41, 20+au%50+extra, au))}, true)
 		}
 		if audio {
-			p := rtppack.Sequence([][]byte{rtppack.AacHbr([][]byte{body(0x21, 16+au%30, au)})}, true, 97, ats, aseq, 0x0A0B0C01)
+			p := rtppack.Sequence([][]byte{rtppack.AacHbr([][]byte{body(0x21, 16+au%30+extra/2, au)})}, true, 97, ats, aseq, 0x0A0B0C01)
 			out = append(out, Frame{Track: 1, Data: p[0].Marshal()})
 			aseq++
 			ats += 1024
